@@ -546,11 +546,105 @@ func (o *Origin) fieldMutated(fa *ssa.FieldAddr, at ssa.Instruction) bool {
 }
 
 type allocEvent struct {
-	in    ssa.Instruction
-	path  []string // field path stored to (nil = whole)
-	val   ssa.Value
-	esc   bool
-	escBy string
+	in     ssa.Instruction
+	path   []string // field path stored to (nil = whole)
+	val    ssa.Value
+	esc    bool
+	escBy  string
+	callee *ssa.Function
+	argIdx int
+}
+
+var roMemo = map[string]bool{}
+
+// paramReadOnly reports whether fn never writes through its idx-th parameter (a pointer or an interface holding one):
+// the parameter is only dereferenced for loads, compared, or handed to callees that are read-only in turn.
+func paramReadOnly(fn *ssa.Function, idx int, depth int) bool {
+	if fn == nil || fn.Blocks == nil || idx >= len(fn.Params) || depth > 3 {
+		return false
+	}
+	key := fmt.Sprintf("%p/%d", fn, idx)
+	if v, ok := roMemo[key]; ok {
+		return v
+	}
+	roMemo[key] = true // optimistic for recursion
+	ok := valueReadOnly(fn.Params[idx], depth, map[ssa.Value]bool{})
+	roMemo[key] = ok
+	return ok
+}
+
+func valueReadOnly(v ssa.Value, depth int, seen map[ssa.Value]bool) bool {
+	if seen[v] {
+		return true
+	}
+	seen[v] = true
+	refs := v.Referrers()
+	if refs == nil {
+		return true
+	}
+	for _, r := range *refs {
+		switch u := r.(type) {
+		case *ssa.Store:
+			if u.Addr == v {
+				return false
+			}
+			// storing the pointer itself somewhere: only into a local that stays read-only
+			if al, _ := rootAlloc(u.Addr); al == nil || !valueReadOnly(al, depth, seen) {
+				return false
+			}
+		case *ssa.UnOp, *ssa.BinOp, *ssa.DebugRef, *ssa.If, *ssa.Return:
+			if uo, ok := u.(*ssa.UnOp); ok && uo.Op == token.MUL {
+				// loaded value may itself be a pointer that is written through: follow pointer-typed loads
+				if _, isPtr := uo.Type().Underlying().(*types.Pointer); isPtr {
+					if !valueReadOnly(uo, depth, seen) {
+						return false
+					}
+				}
+			}
+		case *ssa.FieldAddr, *ssa.IndexAddr, *ssa.Field, *ssa.Index, *ssa.MakeInterface, *ssa.ChangeInterface, *ssa.ChangeType, *ssa.TypeAssert, *ssa.Phi, *ssa.Extract, *ssa.Slice, *ssa.Convert:
+			if !valueReadOnly(u.(ssa.Value), depth, seen) {
+				return false
+			}
+		case ssa.CallInstruction:
+			cc := u.Common()
+			if cc.IsInvoke() {
+				if cc.Value == v {
+					// method call on an interface holding the pointer: unknown implementation
+					name := cc.Method.Name()
+					if name == "String" || name == "Error" || strings.HasPrefix(name, "Get") || name == "ByteSlices" || name == "Strings" ||
+						name == "Size" || name == "Marshal" || name == "ProtoMessage" {
+						continue
+					}
+				}
+				return false
+			}
+			if b, ok := cc.Value.(*ssa.Builtin); ok {
+				if b.Name() == "len" || b.Name() == "cap" || b.Name() == "append" || b.Name() == "copy" && len(cc.Args) > 0 && cc.Args[0] != v {
+					continue
+				}
+				return false
+			}
+			sc := cc.StaticCallee()
+			if sc == nil {
+				return false
+			}
+			if readOnlyCallee(FuncName(sc)) {
+				continue
+			}
+			okAll := true
+			for i, a := range cc.Args {
+				if a == v && !paramReadOnly(sc, i, depth+1) {
+					okAll = false
+				}
+			}
+			if !okAll {
+				return false
+			}
+		default:
+			return false
+		}
+	}
+	return true
 }
 
 // allocEvents lists stores into, and escapes of, a local.
@@ -594,12 +688,26 @@ func (o *Origin) allocEvents(al *ssa.Alloc) []allocEvent {
 				name := "escape"
 				if c, ok := u.(ssa.CallInstruction); ok {
 					name = "call:" + calleeName(c.Common())
+					ev := allocEvent{in: u, esc: true, escBy: name, callee: c.Common().StaticCallee(), argIdx: -1}
+					for i, a := range c.Common().Args {
+						if a == addr {
+							ev.argIdx = i
+						}
+					}
+					evs = append(evs, ev)
+					continue
 				} else if mi, ok := u.(*ssa.MakeInterface); ok {
 					// boxed pointer: follow to the calls that receive it
 					if mrefs := mi.Referrers(); mrefs != nil {
 						for _, mr := range *mrefs {
 							if c, ok := mr.(ssa.CallInstruction); ok {
-								evs = append(evs, allocEvent{in: c.(ssa.Instruction), esc: true, escBy: "call:" + calleeName(c.Common())})
+								ev := allocEvent{in: c.(ssa.Instruction), esc: true, escBy: "call:" + calleeName(c.Common()), callee: c.Common().StaticCallee(), argIdx: -1}
+								for i, a := range c.Common().Args {
+									if a == ssa.Value(mi) {
+										ev.argIdx = i
+									}
+								}
+								evs = append(evs, ev)
 							} else if in, ok := mr.(ssa.Instruction); ok {
 								if _, isDbg := in.(*ssa.DebugRef); !isDbg {
 									evs = append(evs, allocEvent{in: in, esc: true, escBy: "boxed"})
@@ -624,6 +732,11 @@ func (o *Origin) allocContent(al *ssa.Alloc, at ssa.Instruction, _ []string) *Te
 	typ := al.Type().Underlying().(*types.Pointer).Elem()
 	var relevant []allocEvent
 	for _, e := range evs {
+		if e.esc && strings.HasPrefix(e.escBy, "call:") {
+			if readOnlyCallee(strings.TrimPrefix(e.escBy, "call:")) || (e.callee != nil && e.argIdx >= 0 && paramReadOnly(e.callee, e.argIdx, 0)) {
+				continue
+			}
+		}
 		if at == nil {
 			relevant = append(relevant, e)
 			continue
@@ -860,6 +973,59 @@ func isGeneratedGetter(p *Prog, fn *ssa.Function) (string, bool) {
 		}
 	}
 	return "", false
+}
+
+var pureMemo = map[*ssa.Function]bool{}
+
+// isPureFn: a module function whose result depends only on its arguments: no interface dispatch, no calls out of the
+// module except the pure table, no stores except into its own locals, no channel/map mutation.
+func isPureFn(fn *ssa.Function, depth int) bool {
+	if fn == nil || fn.Blocks == nil || !InModule(fn) || depth > 4 {
+		return false
+	}
+	if v, ok := pureMemo[fn]; ok {
+		return v
+	}
+	pureMemo[fn] = true
+	ok := true
+	for _, b := range fn.Blocks {
+		for _, in := range b.Instrs {
+			switch x := in.(type) {
+			case *ssa.Go, *ssa.Defer, *ssa.MapUpdate, *ssa.Send, *ssa.Panic:
+				ok = false
+			case *ssa.Store:
+				if al, _ := rootAlloc(x.Addr); al == nil {
+					if ia, isIdx := x.Addr.(*ssa.IndexAddr); isIdx {
+						if al2, _ := rootAlloc(ia.X); al2 != nil {
+							continue
+						}
+					}
+					ok = false
+				}
+			case *ssa.Call:
+				if x.Call.IsInvoke() {
+					ok = false
+					continue
+				}
+				if _, isB := x.Call.Value.(*ssa.Builtin); isB {
+					continue
+				}
+				sc := x.Call.StaticCallee()
+				if sc == nil {
+					ok = false
+					continue
+				}
+				if pureCallees[FuncName(sc)] {
+					continue
+				}
+				if !isPureFn(sc, depth+1) {
+					ok = false
+				}
+			}
+		}
+	}
+	pureMemo[fn] = ok
+	return ok
 }
 
 // inlinable: module function, not generated, single return instruction, no loops, small.
